@@ -85,6 +85,7 @@ mod imp {
         pub further_ok: u64,
         pub further_err: u64,
         pub ident: u64,
+        pub med: Option<MedEvidence>,
     }
 
     impl ScenarioOut {
@@ -103,6 +104,7 @@ mod imp {
                 further_ok: 0,
                 further_err: 0,
                 ident: 0,
+                med: None,
             }
         }
         pub fn note_result(&mut self, r: &Result<(), String>) {
@@ -123,10 +125,88 @@ mod imp {
         pub token: u64,
         pub notify: bool,
         pub len: usize,
+        /// extra query bytes appended to `path_of(token)` (medium-frame streams vary the query length)
+        pub qpad: usize,
     }
 
     pub fn path_of(token: u64) -> String {
         format!("/c05/{token:x}")
+    }
+
+    /// Query of an operation: `path_of(token)` plus `qpad` padding bytes ("/pppp...").
+    pub fn path_of_op(op: &Op) -> String {
+        let mut p = path_of(op.token);
+        if op.qpad > 0 {
+            p.push('/');
+            for _ in 1..op.qpad {
+                p.push('p');
+            }
+        }
+        p
+    }
+
+    /// The 48 values of query+body for which a frame is one byte to 48 bytes larger than the 8 KiB
+    /// BufWriter (header + query are flushed on their own from inside `write_all(body)`).
+    pub const WINDOW: std::ops::RangeInclusive<usize> = 8145..=8192;
+
+    /// query+body sums for a back-to-back stream of `n` MEDIUM frames: a seeded permutation of the
+    /// 48-value window cycled densely (70 %), seeded permutations of 8100..=8144 (14 %) and 8193..=8300
+    /// (9 %) cycled, and buffer-boundary specials (4 KiB, 8 KiB, 16 KiB ± 1 as whole frame and as
+    /// query+body; 7 %). Whole-frame sizes are these + 48, so 8148..8348 is covered as well.
+    pub fn med_sums(rng: &mut Rng, n: usize) -> Vec<usize> {
+        let mut win: Vec<usize> = WINDOW.collect();
+        rng.shuffle(&mut win);
+        let mut below: Vec<usize> = (8100..=8144).collect();
+        rng.shuffle(&mut below);
+        let mut above: Vec<usize> = (8193..=8300).collect();
+        rng.shuffle(&mut above);
+        const SPECIAL: [usize; 18] = [4047, 4048, 4049, 4095, 4096, 4097, 8143, 8144, 8145, 8191, 8192, 8193, 16335, 16336, 16337, 16383, 16384, 16385];
+        let (mut wi, mut bi, mut ai) = (rng.usize_below(48), rng.usize_below(45), rng.usize_below(108));
+        (0..n)
+            .map(|_| {
+                let c = rng.below(100);
+                if c < 70 {
+                    wi += 1;
+                    win[wi % win.len()]
+                } else if c < 84 {
+                    bi += 1;
+                    below[bi % below.len()]
+                } else if c < 93 {
+                    ai += 1;
+                    above[ai % above.len()]
+                } else {
+                    *rng.pick(&SPECIAL)
+                }
+            })
+            .collect()
+    }
+
+    /// Split a query+body sum into (query length, body length): short natural query (40 %), a few hundred
+    /// bytes (15 %), 1000..4000 bytes (45 %: makes the separately flushed header+query a large part of the frame).
+    pub fn med_split(rng: &mut Rng, sum: usize, min_q: usize) -> (usize, usize) {
+        let c = rng.below(100);
+        let q = if c < 40 {
+            min_q
+        } else if c < 55 {
+            min_q + 1 + rng.usize_below(300)
+        } else {
+            1000 + rng.usize_below(3001)
+        };
+        let q = q.max(min_q).min(sum);
+        (q, sum - q)
+    }
+
+    /// Evidence of one medium-frame stream scenario.
+    #[derive(Default, Clone)]
+    pub struct MedEvidence {
+        /// frames submitted back-to-back before the first interruption
+        pub frames_before_interruption: u64,
+        /// query+body of every frame whose write was interrupted (timed out / cancelled / never completed)
+        pub interrupted_sums: Vec<usize>,
+        /// query+body of every frame submitted while the peer was stalled
+        pub stream_sums: Vec<usize>,
+        /// sends attempted after the first interruption while the peer was still stalled
+        pub sends_after_first_interruption: u64,
     }
 
     const EDGE: [usize; 27] = [
@@ -182,11 +262,23 @@ mod imp {
         trouble: Vec<String>,
         size_classes_seen: [u64; 9],
         walls: Vec<(String, u64)>,
+        med_interrupted: std::collections::BTreeSet<usize>,
+        med_stream: std::collections::BTreeSet<usize>,
     }
 
     fn judge(rep: &mut Report, t: &mut Tally, cx: &Cx, lane: &str, idx: usize, out: ScenarioOut) {
         rep.eval();
-        let class = format!("{}:{}", out.endpoint, out.cause);
+        let class = if out.med.is_some() { format!("{}:{}:medium_stream", out.endpoint, out.cause) } else { format!("{}:{}", out.endpoint, out.cause) };
+        if let Some(m) = &out.med {
+            *t.counters.entry("medium_stream_scenarios".into()).or_default() += 1;
+            *t.counters.entry("medium_stream_frames_submitted_to_stalled_peer".into()).or_default() += m.stream_sums.len() as u64;
+            *t.counters.entry("medium_stream_frames_before_first_interruption".into()).or_default() += m.frames_before_interruption;
+            *t.counters.entry("medium_stream_interrupted_frames".into()).or_default() += m.interrupted_sums.len() as u64;
+            *t.counters.entry("medium_stream_interrupted_frames_in_8145_8192_window".into()).or_default() += m.interrupted_sums.iter().filter(|s| WINDOW.contains(s)).count() as u64;
+            *t.counters.entry("medium_stream_sends_after_first_interruption_while_stalled".into()).or_default() += m.sends_after_first_interruption;
+            t.med_interrupted.extend(m.interrupted_sums.iter().copied());
+            t.med_stream.extend(m.stream_sums.iter().copied());
+        }
         let entry = t.per_class.entry(class.clone()).or_default();
         entry.0 += 1;
         if out.fault_triggered == Some(true) {
@@ -356,6 +448,9 @@ mod imp {
                     sc!("server.healthy.b", |c, r| srv::tcp_server(c, r, SrvKind::Blocking, Mode::Healthy)),
                     sc!("client.stall.b", |c, r| cli::client_concurrent(c, r, true, None)),
                     sc!("server.write_timeout.b", |c, r| srv::tcp_server(c, r, SrvKind::Blocking, Mode::WriteTimeout)),
+                    sc!("client.write_timeout.medium.a", |c, r| cli::client_medium_stream(c, r)),
+                    sc!("server.write_timeout.medium.a", |c, r| srv::tcp_server(c, r, SrvKind::Blocking, Mode::WriteTimeoutMedium)),
+                    sc!("client.write_timeout.medium.b", |c, r| cli::client_medium_stream(c, r)),
                 ],
             },
             Lane {
@@ -372,6 +467,9 @@ mod imp {
                     sc!("async_server.healthy.b", |c, r| srv::tcp_server(c, r, SrvKind::Async, Mode::Healthy)),
                     sc!("async_client.stall.b", |c, r| cli::aclient_concurrent(c, r, Tcp, true, None)),
                     sc!("async_server.write_timeout.b", |c, r| srv::tcp_server(c, r, SrvKind::Async, Mode::WriteTimeout)),
+                    sc!("async_client.cancel.medium.a", |c, r| cli::aclient_medium_stream(c, r, Tcp)),
+                    sc!("async_server.write_timeout.medium.a", |c, r| srv::tcp_server(c, r, SrvKind::Async, Mode::WriteTimeoutMedium)),
+                    sc!("async_client.cancel.medium.b", |c, r| cli::aclient_medium_stream(c, r, Tcp)),
                 ],
             },
             Lane {
@@ -386,6 +484,9 @@ mod imp {
                     sc!("ws_client.cancel.b", |c, r| cli::aclient_cancel(c, r, Ws)),
                     sc!("ws_server.stall.inline", |c, r| srv::ws_server(c, r, true, false)),
                     sc!("ws_client.healthy.b", |c, r| cli::aclient_concurrent(c, r, Ws, false, None)),
+                    sc!("ws_client.cancel.medium.a", |c, r| cli::aclient_medium_stream(c, r, Ws)),
+                    // (this lane is the shortest: it also hosts a third blocking-client medium stream)
+                    sc!("client.write_timeout.medium.c", |c, r| cli::client_medium_stream(c, r)),
                 ],
             },
         ]
@@ -397,7 +498,9 @@ mod imp {
             "c05-raw-peer-recording",
             "raw peers record every byte written by Client / AsyncClient / WebSocketClient / Server / AsyncServer / WebSocketServer under \
              concurrent writers (<=32), sizes straddling 0, 8 KiB±1 (body and whole frame), 64 KiB, 1 MiB, 4 MiB (32 MiB thorough), seeded reader \
-             stalls with small socket buffers, write timeouts, calls aborted mid-send, then FURTHER traffic after the peer drained; oracle = \
+             stalls with small socket buffers, write timeouts, calls aborted mid-send (one huge payload, or a back-to-back stream of MEDIUM \
+             frames with query+body 8100..8300 densely covering 8145..=8192, plus 4/8/16 KiB±1, that fills the pipe of a stalled peer until a \
+             write is interrupted, then more sends while still stalled), then FURTHER traffic after the peer drained; oracle = \
              sequential walk: frame* · optional strict prefix of one frame with nothing after it, each frame byte-equal to one submitted \
              message (body = f(token, offset)), conservation, one frame per WebSocket message; distinct = (endpoint, fault, workload shape hash)",
         );
@@ -475,6 +578,9 @@ mod imp {
         }
         rep.set("per_endpoint_and_fault", Value::Object(classes));
         rep.set("verified_frames_by_size_class_[0,<8000,~8KiB,<64KiB,~64KiB,<1MiB,~1MiB,<=4MiB,>4MiB]", json!(t.size_classes_seen));
+        rep.set("medium_stream_interrupted_frame_query_plus_body_values", json!(t.med_interrupted.iter().collect::<Vec<_>>()));
+        rep.set("medium_stream_distinct_query_plus_body_values_submitted", json!(t.med_stream.len()));
+        rep.set("medium_stream_window_8145_8192_values_submitted", json!(t.med_stream.iter().filter(|s| WINDOW.contains(s)).count()));
         rep.set("harness_trouble_notes", json!(t.trouble));
         rep.set("scenario_wall_ms", json!(t.walls));
         rep.set("heartbeat_max_gap_ms", json!(hb.max_gap_ms()));
@@ -505,4 +611,4 @@ mod imp {
 }
 
 #[cfg(feature = "net")]
-pub use imp::{ConnOut, Cx, Op, ScenarioOut, path_of, pick_len, size_class};
+pub use imp::{ConnOut, Cx, MedEvidence, Op, ScenarioOut, WINDOW, med_split, med_sums, path_of, path_of_op, pick_len, size_class};
